@@ -302,7 +302,15 @@ def flat_coverage(fn, loop):
 
     X = elem_store(loop.body, v)
     if X is not None:
-        if unparse(count) in lens(X):
+        ctxt = unparse(count)
+        if isinstance(count, ast.Name) and single_def(count.id) is not None:
+            ctxt = unparse(single_def(count.id))
+        ok_lens = set(lens(X))
+        xd = single_def(X)
+        if isinstance(xd, ast.Call) and isinstance(xd.func, ast.Attribute) and isinstance(xd.func.value, ast.Name) and \
+                ((xd.func.attr == 'reshape' and [unparse(a_) for a_ in xd.args] in (['-1'], ['(-1,)'])) or (xd.func.attr in ('ravel', 'flatten') and not xd.args)):
+            ok_lens.add(f'{xd.func.value.id}.size')         # X is the flattened F: len(X) == F.size
+        if unparse(count) in lens(X) or ctxt in ok_lens:
             return 'PROVEN', f'direct: {unparse(loop.iter)} indexes {X}[{v}]', X
         return 'REFUTED', f'{X}[{v}] is updated for {v} in {unparse(loop.iter)}, which is not the length of {X}: elements are skipped', X
     for inner in loop.body:
